@@ -182,6 +182,10 @@ func (s *composeSlice) build() {
 			}
 			if len(t) > 5 && t[5] == "md" {
 				b.WithMaxDuration(composeMaxDuration)
+				if pos%2 == 0 {
+					// a delay configured after the max duration must leave the max duration alone (builder call order is free)
+					b.WithRandomDelay(time.Nanosecond, 2*time.Nanosecond)
+				}
 			}
 			applyConds(t[3], func(e ...error) { b.HandleErrors(e...) }, func(a ...any) { b.HandleErrorTypes(a...) }, func(r int) { b.HandleResult(r) }, func(p func(int, error) bool) { b.HandleIf(p) })
 			applyConds(t[4], func(e ...error) { b.AbortOnErrors(e...) }, func(a ...any) { b.AbortOnErrorTypes(a...) }, func(r int) { b.AbortOnResult(r) }, func(p func(int, error) bool) { b.AbortIf(p) })
@@ -648,6 +652,9 @@ func genCompose(r *rand.Rand, n int, tier string, emit func(string) string) {
 				nb++
 			case 2:
 				cap := 1 + r.Intn(3)
+				if r.Intn(8) == 0 {
+					cap = 0 // a legal configuration: the bulkhead refuses everything
+				}
 				pre = append(pre, fmt.Sprintf("bh %d", cap))
 				bulkCaps = append(bulkCaps, cap)
 				pols = append(pols, fmt.Sprintf("pol bulkhead %d", nbh))
